@@ -187,6 +187,7 @@ func (s *Subscription) Ref(rid string) *Subscription {
 // If the resource was successfully loaded, err will be nil. If an error occurred
 // when loading the resource, resourceSub will be nil, and err will be the error.
 func (s *Subscription) Loaded(resourceSub *rescache.ResourceSubscription, err error) {
+	verifPoint("sub.loaded")
 	if !s.c.Enqueue(func() {
 		if err != nil {
 			s.err = err
@@ -195,6 +196,7 @@ func (s *Subscription) Loaded(resourceSub *rescache.ResourceSubscription, err er
 		}
 
 		if s.state == stateDisposed {
+			verifSub("sub.lateLoadedDisposed", s)
 			resourceSub.Unsubscribe(s)
 			return
 		}
@@ -217,6 +219,7 @@ func (s *Subscription) Loaded(resourceSub *rescache.ResourceSubscription, err er
 		}
 	}) {
 		if err == nil {
+			verifSub("sub.loadedAfterClose", s)
 			resourceSub.Unsubscribe(s)
 		}
 	}
@@ -318,6 +321,7 @@ func (s *Subscription) unqueueEvents(reason uint8) {
 		s.processEvent(event)
 		// Did one of the events activate queueing again?
 		if s.queueFlag != 0 {
+			verifSub("sub.requeue", s)
 			s.eventQueue = append(eq[i+1:], s.eventQueue...)
 			return
 		}
@@ -328,6 +332,7 @@ func (s *Subscription) unqueueEvents(reason uint8) {
 // and populates the rpc.Resources object with all non-sent resources
 // referenced by the subscription, as well as the subscription's own data.
 func (s *Subscription) populateResources(r *rpc.Resources, indirect bool) {
+	verifSub("populate", s)
 	if indirect {
 		s.indirectsent++
 	}
@@ -374,6 +379,7 @@ func (s *Subscription) populateResources(r *rpc.Resources, indirect bool) {
 // populateResourcesLegacy is the same as populateResources, but uses legacy
 // encodings of resources.
 func (s *Subscription) populateResourcesLegacy(r *rpc.Resources, indirect bool) {
+	verifSub("populate", s)
 	if indirect {
 		s.indirectsent++
 	}
@@ -560,6 +566,7 @@ func (s *Subscription) Event(event *rescache.ResourceEvent) {
 		}
 
 		if s.queueFlag != 0 {
+			verifSub("sub.queued", s)
 			s.eventQueue = append(s.eventQueue, event)
 			return
 		}
@@ -571,6 +578,7 @@ func (s *Subscription) Event(event *rescache.ResourceEvent) {
 func (s *Subscription) processEvent(event *rescache.ResourceEvent) {
 	// Discard events targeting a different internal version
 	if s.version != event.Version {
+		verifSub("sub.versionDiscard", s)
 		return
 	}
 
@@ -820,6 +828,7 @@ func (s *Subscription) Dispose() {
 // a subscription has indirect references, but has reached 0 indirectsent
 // references.
 func (s *Subscription) Unsend() {
+	verifSub("sub.unsend", s)
 	s.state = stateReady
 	s.indirectsent = 0
 
@@ -857,6 +866,7 @@ func (s *Subscription) reaccess(t *rescache.Throttle) {
 	}
 
 	if s.queueFlag != 0 {
+		verifSub("sub.reaccessDeferred", s)
 		s.flags |= flagReaccess
 		return
 	}
